@@ -1130,6 +1130,14 @@ pub struct Fs {
     /// and bypass the page cache without plumbing the per-`File`
     /// `direct_io` flag through the kernel-shaped API.
     pub direct_io_fds: indexmap::IndexSet<RawFd>,
+    /// Subset of [`Self::open_handles`] opened without read access
+    /// (`O_WRONLY`). Tracked for the same reason as `direct_io_fds`: the
+    /// io_uring shim only sees a bare `RawFd` and must refuse a read on
+    /// such an fd (`EBADF`), as `File::read_at` does.
+    pub no_read_fds: indexmap::IndexSet<RawFd>,
+    /// Subset of [`Self::open_handles`] opened without write access
+    /// (`O_RDONLY`); the io_uring shim refuses a write on such an fd.
+    pub no_write_fds: indexmap::IndexSet<RawFd>,
     /// Next file descriptor to assign.
     next_fd: RawFd,
     /// Probability that writes are randomly synced to durable storage (0.0 - 1.0)
@@ -1175,6 +1183,8 @@ impl Fs {
             pending: Vec::new(),
             open_handles: IndexMap::new(),
             direct_io_fds: indexmap::IndexSet::new(),
+            no_read_fds: indexmap::IndexSet::new(),
+            no_write_fds: indexmap::IndexSet::new(),
             next_fd: SIM_FD_BASE,
             sync_probability: config.sync_probability,
             capacity: config.capacity,
